@@ -8,16 +8,16 @@ use crate::report::{Meta, Report};
 use crate::rng::Rng;
 use crate::util::{catch, hex, par_items};
 use crate::{obj, Ctx};
-use emulator_2a_lib::machine::{verif, Bus, Machine, MachineConfig, State};
+use emulator_2a_lib::machine::{verif, Bus, Machine, MachineConfig, State, StepMode};
 use emulator_2a_lib::parser::Programsize;
 
 pub fn meta() -> Meta {
     Meta {
         id: "C13",
-        rule: "240-byte RAM images (uniform random, opcode-biased, I/O-address-biased operands, all-one-byte fills) x 5 stack sizes x program-size limits x seeded stimulus schedules (key interrupt, continue, CPU/master reset, input setters, board setters with adversarial f32 incl. NaN/inf/subnormal) interleaved with single clock edges, every call under catch_unwind with a clock-edge fuel; after each run all getters, all 256 bus reads and the signal decoders are called and the machine is stepped further; plus direct Bus::write/read of every address x value and board setters. distinct_nontrivial counts distinct (image style, stack size, limit class, final state, micro-address bucket reached) classes",
+        rule: "240-byte RAM images (uniform random, opcode-biased, I/O-address-biased operands, all-one-byte fills) x 5 stack sizes x program-size limits x seeded stimulus schedules (key interrupt, continue, CPU/master reset, input setters, board setters with adversarial f32 incl. NaN/inf/subnormal) interleaved with single clock edges, every call under catch_unwind with a clock-edge fuel; after each run all getters, all 256 bus reads and the signal decoders are called and the machine is stepped further; plus direct Bus::write/read of every address x value and board setters; plus long runs: programs that store arbitrary bytes to the interrupt mask, the timer and the board registers and then idle are clocked for 70 000-140 000 edges (beyond every 16-bit quantity) with an occasional key press, stepped by instruction, reset and run again. distinct_nontrivial counts distinct (image style, stack size, limit class, final state, micro-address bucket reached) classes",
         exhaustive: false,
         assumptions: vec!["Stacksize::NotSet is outside the quantifier (5 sizes) and is not injected"],
-        floors: vec![("clock_edges", 20_000_000), ("stimuli", 500_000), ("io_bus_accesses_by_programs", 50_000), ("direct_bus_ops", 131_072), ("nan_or_inf_voltages", 1_000), ("micro_addresses_visited", 200), ("cases_with_trace_logging", 1_000), ("cases_with_warn_logging", 1_000)],
+        floors: vec![("long_runs", 60), ("clock_edges", 20_000_000), ("stimuli", 500_000), ("io_bus_accesses_by_programs", 50_000), ("direct_bus_ops", 131_072), ("nan_or_inf_voltages", 1_000), ("micro_addresses_visited", 200), ("cases_with_trace_logging", 1_000), ("cases_with_warn_logging", 1_000)],
     }
 }
 
@@ -342,6 +342,59 @@ fn direct_bus(rng: &mut Rng, rep: &mut Report) {
     }
 }
 
+/// A program that configures the peripherals with arbitrary bytes and then idles; run for far
+/// longer than any 16-bit quantity lasts, then stepped by instruction, reset and run again.
+fn long_run_image(rng: &mut Rng) -> Vec<u8> {
+    let mut img = vec![0xFB, 0xEF, 0x40]; // LDSP 0xEF
+    let n = 6 + rng.usize(12);
+    for k in 0..n {
+        let addr = match k {
+            0 => 0xF9,
+            1 => 0xFD,
+            2 => 0xFC,
+            _ => 0xF0 + rng.below(16) as u8,
+        };
+        img.extend_from_slice(&[0xFB, rng.byte_biased(), 0x1F, addr]); // ST (addr), value
+    }
+    if rng.bool() {
+        img.push(0x08); // EI
+    }
+    match rng.below(3) {
+        0 => img.extend_from_slice(&[0x20, 0xFE]),                         // L: JR L
+        1 => img.extend_from_slice(&[0x44, 0xF0, 0x1F, 0xA0, 0x20, 0xFA]), // L: INC R0; ST (0xA0),R0; JR L
+        _ => img.extend_from_slice(&[0xFF, 0xFC, 0x11, 0x20, 0xFB]),       // L: LD R1,(0xFC); JR L
+    }
+    img
+}
+
+fn long_run(img: &[u8], edges: usize) -> Result<(), crate::util::Panic> {
+    catch(|| {
+        let mut m = real::blank_machine();
+        m.raw_mut().bus_mut().memory_mut()[..img.len()].copy_from_slice(img);
+        verif::set_fuel(Some(edges as u64 * 4 + 1_000_000));
+        for t in 0..edges {
+            real::edge(&mut m);
+            if t % 9_973 == 0 {
+                m.trigger_key_interrupt();
+            }
+        }
+        m.set_step_mode(StepMode::Assembly);
+        for _ in 0..2_000 {
+            m.trigger_key_clock();
+        }
+        m.cpu_reset();
+        m.set_step_mode(StepMode::Real);
+        for _ in 0..edges / 2 {
+            m.trigger_key_clock();
+        }
+        verif::set_fuel(None);
+    })
+    .map_err(|p| {
+        verif::set_fuel(None);
+        p
+    })
+}
+
 pub fn run(ctx: &Ctx) -> Report {
     let n = ctx.size(3_000_000, 20_000_000) as usize;
     let batches = (n + 19) / 20;
@@ -358,6 +411,23 @@ pub fn run(ctx: &Ctx) -> Report {
     crate::util::set_log_level(0);
     rep.count("cases_with_trace_logging", trace_rep.evaluations);
     rep.merge(trace_rep);
+    let long = par_items(ctx.threads, ctx.size(64, 1_000) as usize, ctx.seed ^ 0x10F6, |i, seed, rep| {
+        let mut rng = Rng::new(seed);
+        let img = long_run_image(&mut rng);
+        let edges = 70_000 + rng.usize(70_000);
+        rep.evaluations += 1;
+        match long_run(&img, edges) {
+            Ok(()) => {
+                rep.inc("long_runs");
+                rep.count("clock_edges_in_long_runs", edges as u64 * 3 / 2);
+            }
+            Err(p) => {
+                let sig = if p.is_fuel() { "C13:no-return:long-run".to_string() } else { format!("C13:panic:{}", p.site()) };
+                rep.violate(&sig, format!("after configuring the peripherals and idling for up to {} clock edges (item {}): {} ({}:{})", edges, i, p.msg, p.file, p.line), obj![("long_run_image", img.clone()), ("edges", edges)]);
+            }
+        }
+    });
+    rep.merge(long);
     let visited = rep.marks_in(0, 512);
     rep.count("micro_addresses_visited", visited);
     rep
@@ -396,6 +466,14 @@ pub fn replay(_ctx: &Ctx, w: &J) -> Report {
     if w.get("direct_bus").is_some() {
         let mut rng = Rng::new(1);
         direct_bus(&mut rng, &mut rep);
+        return rep;
+    }
+    if let Some(img) = w.get("long_run_image").and_then(|v| v.bytes()) {
+        let edges = w.get("edges").and_then(|v| v.as_u64()).unwrap_or(140_000) as usize;
+        if let Err(p) = long_run(&img, edges) {
+            let sig = if p.is_fuel() { "C13:no-return:long-run".to_string() } else { format!("C13:panic:{}", p.site()) };
+            rep.violate(&sig, format!("{} ({}:{})", p.msg, p.file, p.line), w.clone());
+        }
         return rep;
     }
     let c = Case::from_json(w);
